@@ -124,9 +124,9 @@ def audit(modules, scratch):
     report = {}
     # "'X' depends on axioms: [a, b]" (possibly wrapped over lines) or "'X' does not depend on any axioms"
     flat = re.sub(r"\s+", " ", txt)
-    for m in re.finditer(r"'([^']+)' depends on axioms: \[([^\]]*)\]", flat):
+    for m in re.finditer(r"'(\S+)' depends on axioms: \[([^\]]*)\]", flat):
         report[m.group(1)] = [a.strip() for a in m.group(2).split(",") if a.strip()]
-    for m in re.finditer(r"'([^']+)' does not depend on any axioms", flat):
+    for m in re.finditer(r"'(\S+)' does not depend on any axioms", flat):
         report[m.group(1)] = []
     discharged = [n for n in names if n in report and set(report[n]) <= ADMISSIBLE_AXIOMS]
     return names, discharged, {"rc": rc, "axioms": report, "raw_tail": txt[-2000:] if rc != 0 else ""}
